@@ -2,8 +2,8 @@ import Ecal.Model.Lexer
 /-!
 Model of parser/parser.go + helper.go as they are NOW (after the fix commits 486e4c7 "first
 error in a block wins", c1d34c3 "tree xor error / lexer error after ';'", cbd1b2f "per-parse
-block-start flag", and the candidate fix C07e "error of skipToken('[') in ndIdentifier is not
-dropped", notes/candidate-fixes/C07e-lbrack-skip-error.patch): the Pratt parser with its statement loops. The parser runs on a token list
+block-start flag", be7569d "lexer error after '[' of a composition access is reported" — found by
+this model: `a["` was a nil dereference): the Pratt parser with its statement loops. The parser runs on a token list
 (`parseToks`); `parse` = `parseToks ∘ lex` is kept for the models which start from text.
 Fuel-indexed mutual recursion in a small error+state monad `M` (own definition, so that the
 proofs in `Ecal/Lemmas/ParserSafe.lean` control every unfolding); `Err.panic` is a Go nil
@@ -460,7 +460,7 @@ def parseMore : Nat → Node → Node → M Node
       let ct ← tokOf (← cur)
       let st ← tokOf self
       if id = T_LBRACK ∧ ct.line = st.line then do
-        skipToken [T_LBRACK]                  -- (fix C07e: the error of this skipToken is looked at)
+        skipToken [T_LBRACK]                  -- (be7569d: the error of this skipToken is looked at)
         let ca ← mkNode T_COMPACCESS none
         let e ← run f 0
         skipToken [T_RBRACK]
